@@ -767,7 +767,7 @@ Section C13Main.
       split; [subst st'; eapply CA_ext; [|exact HA1]; ca_eq_tac|].
       split; [subst st'; destruct HS1; constructor; simpl; auto|].
       apply CB_CBp. subst st'. simpl.
-      eapply CBp_ext; [reflexivity|reflexivity|reflexivity|intros; reflexivity|].
+      eapply (CBp_ext st1); [reflexivity|reflexivity|reflexivity|intros; reflexivity|].
       eapply (CB_astep fixed flt wresf ev_bad hbfail eq_refl eq_refl); [exact HR|exact HB|exact He| |exact HI].
       intros p. apply (step_cnt fixed flt wresf ev_bad hbfail p _ _ _ _ _ _ _ _ _ Hl He eq_refl).
   Qed.
@@ -775,3 +775,112 @@ Section C13Main.
   Lemma ALL_reachable : forall st, reach st -> ALL st.
   Proof. apply run_inv; [apply ALL_init|apply ALL_step]. Qed.
 End C13Main.
+
+(* ---- the C13 statements ---- *)
+Lemma nstart_count : forall t l, nstart t l = count_occ Nat.eq_dec (starts l) t.
+Proof.
+  unfold nstart. induction l; simpl; auto.
+  destruct a; simpl; auto. destruct (Nat.eq_dec t0 t); destruct (Nat.eqb_spec t0 t); try congruence; simpl; auto.
+Qed.
+Lemma starts_rev : forall l, starts (rev l) = rev (starts l).
+Proof.
+  unfold starts. induction l; simpl; auto. rewrite flat_map_app, IHl. simpl. rewrite app_nil_r.
+  destruct a; simpl; auto using app_nil_r.
+Qed.
+Lemma cancels_rev_In : forall t l, In (OCancel t) l -> In t (cancels (rev l)).
+Proof.
+  intros. unfold cancels. apply in_flat_map. exists (OCancel t). split; [apply in_rev; rewrite rev_involutive; auto|simpl; auto].
+Qed.
+
+Definition quiescent (st : state) : Prop :=
+  threads st = [] /\
+  (shut st = true \/
+   forall s, In s (allsubs st) -> In (GLeft s) (log st) \/ In (GEnd (s_tid (subs st s))) (log st)).
+
+Section C13Thms.
+  Variable flt : sid -> ev -> fres.
+  Variable wresf : sid -> ev -> wres.
+  Variable ev_bad : ev -> bool.
+  Variable hbfail : sid -> bool.
+  Notation reach := (reachable fixed flt wresf ev_bad hbfail).
+
+  Lemma one_start_holds : forall st, reach st ->
+    one_start (chron st) /\ NoDup (map fst (reg st)) /\ (forall t, t_started (trigs st t) <= 1).
+  Proof.
+    intros st H. apply ALL_reachable in H. destruct H as (HR & _ & _ & _ & _ & HB). split; [|split].
+    - unfold one_start, chron. rewrite starts_rev. apply NoDup_rev. apply (NoDup_count_occ Nat.eq_dec). intros t.
+      rewrite <- nstart_count, (cb_nstart _ HB). pose proof (cb_ps _ HB t). lia.
+    - apply (rg_keys _ HR).
+    - intros t. pose proof (cb_ps _ HB t). lia.
+  Qed.
+
+  Lemma shared_iff_same_key_holds : forall st s1 s2, reach st -> In s1 (byid st) -> In s2 (byid st) ->
+    (s_tid (subs st s1) = s_tid (subs st s2) <-> s_key (subs st s1) = s_key (subs st s2)).
+  Proof.
+    intros st s1 s2 H H1 H2. apply ALL_reachable in H. destruct H as (HR & _).
+    destruct (rg_byid _ HR s1 H1) as (_ & R1 & _). destruct (rg_byid _ HR s2 H2) as (_ & R2 & _).
+    destruct (rg_ent _ HR _ _ R1) as (_ & K1 & _). destruct (rg_ent _ HR _ _ R2) as (_ & K2 & _).
+    split; intros E.
+    - rewrite <- K1, <- K2, E. auto.
+    - rewrite E in R1. eapply reg_key_inj; eauto.
+  Qed.
+
+  Lemma registry_empty_holds : forall st, reach st -> quiescent st -> reg st = [] /\ byid st = [].
+  Proof.
+    intros st H [Hth Hq]. apply ALL_reachable in H. destruct H as (HR & _ & _ & _ & HS & HB).
+    destruct Hq as [Hsh|Hall]; [apply (cs_shut _ HS Hsh)|].
+    assert (Hb : byid st = []).
+    { destruct (byid st) as [|s l] eqn:E; auto. exfalso.
+      assert (Hin : In s (byid st)) by (rewrite E; left; auto).
+      destruct (rg_byid _ HR s Hin) as (Ha & Hr & _ & _).
+      destruct (Hall s Ha) as [Hl|He].
+      - destruct (cs_left _ HS s Hl). tauto.
+      - destruct (cb_end _ HB _ He) as [_ [F|F]].
+        + apply F. unfold registered. destruct (rg_ent _ HR _ _ Hr) as (_ & -> & _). auto.
+        + rewrite Hth in F. simpl in F. lia. }
+    split; auto.
+    destruct (reg st) as [|[k t] l] eqn:E; auto. exfalso.
+    assert (Hin : In (k, t) (reg st)) by (rewrite E; left; auto).
+    destruct (rg_ent _ HR _ _ Hin) as (_ & _ & Hne).
+    destruct (t_subs (trigs st t)) as [|s l'] eqn:Es; [tauto|].
+    destruct (rg_tsubs _ HR t s) as (_ & Hbs & _); [rewrite Es; left; auto|]. rewrite Hb in Hbs. inversion Hbs.
+  Qed.
+
+  Lemma counters_balanced_holds : forall st, reach st -> quiescent st -> counters_balanced (chron st).
+  Proof.
+    intros st H Hq. destruct (registry_empty_holds _ H Hq) as [Er Eb].
+    apply ALL_reachable in H. destruct H as (_ & _ & _ & HA & _).
+    unfold counters_balanced, chron, sub_inc, sub_dec, trig_inc, trig_dec. rewrite !sum_obs_rev.
+    pose proof (ca_sub _ HA) as A. pose proof (ca_trig _ HA) as B0. unfold ninit in B0. rewrite Er in B0. rewrite Eb in A. simpl in *.
+    unfold sub_inc, sub_dec, trig_inc, trig_dec in *. lia.
+  Qed.
+
+  Lemma all_trigger_ctx_cancelled_holds : forall st t, reach st -> quiescent st -> t < ntrig st ->
+    t_cancelled (trigs st t) = true /\ In t (cancels (chron st)).
+  Proof.
+    intros st t H Hq Ht. destruct (registry_empty_holds _ H Hq) as [Er Eb]. destruct Hq as [Hth _].
+    apply ALL_reachable in H. destruct H as (_ & _ & _ & HA & _ & HB).
+    assert (Hc : t_cancelled (trigs st t) = true).
+    { destruct (cb_cancel _ HB t Ht) as [F|[F|F]]; auto.
+      - unfold registered in F. rewrite Er in F. inversion F.
+      - rewrite Hth in F. simpl in F. lia. }
+    split; auto. apply cancels_rev_In. apply (ca_cancel _ HA); auto.
+  Qed.
+
+  Lemma every_subscriber_completed_holds : forall st s, reach st -> quiescent st -> In s (allsubs st) ->
+    s_closed (subs st s) = 1 /\ In (OClosed s) (chron st).
+  Proof.
+    intros st s H Hq Hs. destruct (registry_empty_holds _ H Hq) as [Er Eb]. destruct Hq as [Hth _].
+    apply ALL_reachable in H. destruct H as (_ & HC & HT & HA & _).
+    assert (Hr : s_removed (subs st s) = true).
+    { destruct (ca_ab _ HA s Hs) as [F|F]; auto. rewrite Eb in F. inversion F. }
+    specialize (HT s). rewrite Hth, Hr in HT. simpl in HT.
+    assert (Hc : s_closed (subs st s) = 1) by lia. split; auto.
+    pose proof (wc_nclosed _ HC s) as Hn. rewrite Hc in Hn. unfold nclosed in Hn.
+    unfold chron. apply in_rev. rewrite rev_involutive.
+    destruct (filter (is_oclosed s) (log st)) as [|o l] eqn:E; [discriminate|].
+    assert (Hin : In o (filter (is_oclosed s) (log st))) by (rewrite E; left; auto).
+    apply filter_In in Hin. destruct Hin as [Hin Ho]. destruct o; simpl in Ho; try discriminate.
+    apply Nat.eqb_eq in Ho. subst. auto.
+  Qed.
+End C13Thms.
